@@ -822,6 +822,16 @@ func (e *Extractor) ExtractInner(re *syntax.Regexp) *Seq {
 
 // extractInner is the internal recursive implementation for inner literal extraction.
 func (e *Extractor) extractInner(re *syntax.Regexp, depth int) *Seq {
+	return e.extractInnerAt(re, depth, true)
+}
+
+// extractInnerAt implements extractInner.
+//
+// With anywhere set, the literals may occur at any position of a match of re.
+// Without it they are literals every match of re STARTS with: callers that split
+// the pattern in front of re (ExtractInnerForReverseSearch) need the split point
+// and the literal to coincide.
+func (e *Extractor) extractInnerAt(re *syntax.Regexp, depth int, anywhere bool) *Seq {
 	// Guard against excessive recursion
 	if depth > 100 {
 		return NewSeq()
@@ -847,8 +857,11 @@ func (e *Extractor) extractInner(re *syntax.Regexp, depth int) *Seq {
 	case syntax.OpConcat:
 		// For inner, try to find any literal in the concatenation
 		// Take the first one we find
-		for _, sub := range re.Sub {
-			seq := e.extractInner(sub, depth+1)
+		for i, sub := range re.Sub {
+			if i > 0 && !anywhere {
+				break // a literal of a later element is not at the start of the match
+			}
+			seq := e.extractInnerAt(sub, depth+1, anywhere)
 			if !seq.IsEmpty() {
 				return seq
 			}
@@ -860,7 +873,7 @@ func (e *Extractor) extractInner(re *syntax.Regexp, depth int) *Seq {
 		// If ANY alternative has no inner literal requirement, the whole alternation has none
 		var allLits []Literal
 		for _, sub := range re.Sub {
-			seq := e.extractInner(sub, depth+1)
+			seq := e.extractInnerAt(sub, depth+1, anywhere)
 			if seq.IsEmpty() {
 				// This branch has no inner literal requirement
 				return NewSeq()
@@ -887,7 +900,7 @@ func (e *Extractor) extractInner(re *syntax.Regexp, depth int) *Seq {
 		if len(re.Sub) == 0 {
 			return NewSeq()
 		}
-		return e.extractInner(re.Sub[0], depth+1)
+		return e.extractInnerAt(re.Sub[0], depth+1, anywhere)
 
 	case syntax.OpStar, syntax.OpQuest, syntax.OpPlus:
 		// Even for inner, optional repetition means we can't rely on it
@@ -1181,8 +1194,11 @@ func (e *Extractor) ExtractInnerForReverseSearch(re *syntax.Regexp) *InnerLitera
 	//  3. Has wildcards before it
 	//  4. Has wildcards after it
 	for i := 1; i < len(re.Sub)-1; i++ {
-		// Check if this sub-expression has extractable literals
-		literals := e.extractInner(re.Sub[i], 0)
+		// Check if this sub-expression begins with extractable literals: the pattern
+		// is split in front of it, so an inner literal candidate must be the place
+		// where the prefix portion ends and the suffix portion begins. A literal
+		// further inside (the "foo" of `(\d+foo)`) does not mark that place.
+		literals := e.extractInnerAt(re.Sub[i], 0, false)
 		if literals.IsEmpty() {
 			continue
 		}
